@@ -143,7 +143,7 @@ def make_case(args):
             ref = norm(op, opcat.canon(C[op](da, aux)), da)
             atol = abs_tol(op, da)
         except Exception as e:
-            if op == "hp01":
+            if op.startswith("hp01"):
                 # experimental method (its docstring says so): raising on a degenerate spectrum is not a layout question
                 out.append(dict(op=op, variant="base", ambiguous=f"experimental hp01 raised on the base storage: {type(e).__name__}", icase=icase))
                 continue
